@@ -75,7 +75,7 @@ func NewNumericRangeSearcher(ctx context.Context, indexReader index.IndexReader,
 
 	// FIXME hard-coded precision, should match field declaration
 	termRanges := splitInt64Range(minInt64, maxInt64, 4)
-	terms := termRanges.Enumerate(isIndexed)
+	terms := termRanges.enumeratePrefixCoded(isIndexed)
 	if fieldDict != nil {
 		if fd, ok := fieldDict.(index.FieldDict); ok {
 			if err = fd.Close(); err != nil {
@@ -255,4 +255,36 @@ func newRangeBytes(minBytes, maxBytes []byte) *termRange {
 		startTerm: minBytes,
 		endTerm:   maxBytes,
 	}
+}
+
+// enumeratePrefixCoded is Enumerate for prefix coded numeric terms: after the
+// shift byte these carry 7 bits per byte, so stepping from one term to the
+// next has to carry at 0x7f. Stepping byte-wise (incrementBytes) visits 128
+// invalid values per group, nested, whenever a range spans a group rollover
+// (e.g. a range crossing zero close to it), which never finishes in practice.
+func (tr termRanges) enumeratePrefixCoded(filter filterFunc) [][]byte {
+	var rv [][]byte
+	for _, tri := range tr {
+		next := tri.startTerm
+		for next != nil && bytes.Compare(next, tri.endTerm) <= 0 {
+			if filter == nil || filter(next) {
+				rv = append(rv, next)
+			}
+			next = incrementPrefixCoded(next)
+		}
+	}
+	return rv
+}
+
+func incrementPrefixCoded(in []byte) []byte {
+	rv := make([]byte, len(in))
+	copy(rv, in)
+	for i := len(rv) - 1; i > 0; i-- {
+		if rv[i] < 0x7f {
+			rv[i]++
+			return rv
+		}
+		rv[i] = 0
+	}
+	return nil // all groups rolled over: no further term with this shift
 }
